@@ -89,11 +89,9 @@ def get_basic_branch_results(net, branch_pit, node_pit):
 def get_branch_results_gas(net, branch_pit, node_pit, from_nodes, to_nodes, v_mps, p_from, p_to):
     p_abs_from = node_pit[from_nodes, PAMB] + p_from
     p_abs_to = node_pit[to_nodes, PAMB] + p_to
-    mask = ~np.isclose(p_abs_from, p_abs_to)
-    p_abs_mean = np.empty_like(p_abs_to)
-    p_abs_mean[~mask] = p_abs_from[~mask]
-    p_abs_mean[mask] = 2 / 3 * (p_abs_from[mask] ** 3 - p_abs_to[mask] ** 3) \
-                       / (p_abs_from[mask] ** 2 - p_abs_to[mask] ** 2)
+    # (a^3 - b^3) / (a^2 - b^2) = (a^2 + a b + b^2) / (a + b): symmetric in the two ends, no cancellation and no
+    # special case for (nearly) equal pressures, so the mean does not depend on the declared direction
+    p_abs_mean = 2 / 3 * (p_abs_from ** 2 + p_abs_from * p_abs_to + p_abs_to ** 2) / (p_abs_from + p_abs_to)
 
     fluid = get_fluid(net)
     switched_t = branch_pit[:, FROM_NODE_T_SWITCHED].astype(np.bool_)
@@ -152,11 +150,9 @@ def get_pressures_numba(node_pit, from_nodes, to_nodes, v_mps, p_from, p_to):
     for i in range(len(v_mps)):
         p_abs_from[i] = node_pit[from_nodes[i], PAMB] + p_from[i]
         p_abs_to[i] = node_pit[to_nodes[i], PAMB] + p_to[i]
-        if np.less_equal(np.abs(p_abs_from[i] - p_abs_to[i]), 1e-8 + 1e-5 * abs(p_abs_to[i])):
-            p_abs_mean[i] = p_abs_from[i]
-        else:
-            p_abs_mean[i] = np.divide(2 * (p_abs_from[i] ** 3 - p_abs_to[i] ** 3),
-                                      3 * (p_abs_from[i] ** 2 - p_abs_to[i] ** 2))
+        # symmetric form of 2/3 (a^3 - b^3) / (a^2 - b^2), valid also for equal pressures
+        p_abs_mean[i] = np.divide(2 * (p_abs_from[i] ** 2 + p_abs_from[i] * p_abs_to[i] + p_abs_to[i] ** 2),
+                                  3 * (p_abs_from[i] + p_abs_to[i]))
 
     return p_abs_from, p_abs_to, p_abs_mean
 
